@@ -489,4 +489,20 @@ def c16(ctx):
     return res
 
 
-PLUGINS = {"C16": c16, "C19": c19, "C01": c01, "C20": c20, "C14": c14, "C18": c18, "C15": c15, "C13": c13, "C08": c08, "C11": c11, "C02": c02, "C06": c06, "C10": c10, "C05": c05, "C09": c09, "C04": c04, "C07": c07, "C12": c12}
+def c17(ctx):
+    """C17 locks and read-only mode: (a) sequences of 3-6 open/close attempts by three actors, each open read-write or read-only, issued from this process or from a child process, 150 ms
+    timeout: Lock.lstep predicts every result (K) and the grants are judged against the implementation's own earlier grants (S: a read-write open is alone, read-only opens exclude it, a timeout
+    only with a live conflicting open). (b) read-only session on the closed file: Begin(true)/Update/Batch, every mutating call of Tx/Bucket in a View, Commit; write/truncate/sync calls counted
+    through the I/O hooks; SHA-256 of the file before/after; (c) every key/value slice handed out (mapped and inline) written to with faults as panics, the file hashed before the byte is put back;
+    (d) the CLI's ten inspection commands, SHA-256 after each."""
+    res = Result()
+    res.rule = "one case = one open/close sequence + one read-only session + CLI commands on a fresh database; distinct by MD5 of the operation list; non-trivial if it holds a lock grant, a refusal or a memory probe (every generated case does; refusals are counted in the distribution); evaluations = results judged"
+    with ctx:
+        quick = ctx.tier == "quick" or ctx.budget_s
+        runs = run_sharded(ctx, "c17", 8 if ctx.tier == "quick" else 16, lambda i: ["-seed", str(ctx.seed * 1000 + i), "-n", "40" if quick else "600", "-dir", "{dir}"], ctx.budget_s or (900 if ctx.tier == "quick" else 3000))
+        for r in runs:
+            absorb(res, "C17", *r)
+    return res
+
+
+PLUGINS = {"C17": c17, "C16": c16, "C19": c19, "C01": c01, "C20": c20, "C14": c14, "C18": c18, "C15": c15, "C13": c13, "C08": c08, "C11": c11, "C02": c02, "C06": c06, "C10": c10, "C05": c05, "C09": c09, "C04": c04, "C07": c07, "C12": c12}
